@@ -157,6 +157,12 @@ func (x *Engine) callbackSpec(fr *Frame, cc *ssa.CallCommon) *FuncSpec {
 			return fs
 		}
 	}
+	// contract attached to a function-typed parameter: key "<function key>.<param>.call"
+	if par, ok := cc.Value.(*ssa.Parameter); ok && par.Parent() != nil {
+		if fs := x.db.Funcs[specKeyOf(par.Parent())+"."+par.Name()+".call"]; fs != nil {
+			return fs
+		}
+	}
 	// contract attached to a struct field holding the function: key "pkgpath.Struct.field.call"
 	var st types.Type
 	idx := -1
